@@ -76,9 +76,11 @@ void pmc_run(const char* config) {
         if (kind == 'S') { QS->head = start; QS->tail = start; }
     }
     std::vector<std::string> progs; std::string cur;
-    for (const char* c = config + 3;; c++) { if (*c == '|' || *c == 0) { progs.push_back(cur); cur.clear(); if (!*c) break; } else cur += *c; }
+    bool tso = strstr(config, ":tso") != nullptr;
+    for (const char* c = config + 3;; c++) { if (*c == '|' || *c == 0 || *c == ':') { progs.push_back(cur); cur.clear(); if (*c != '|') break; } else cur += *c; }
     pmc_window(0);
     mv_init();
+    mv_tso(tso);
     pmc_window(1);
     std::vector<pthread_t> ts;
     for (size_t i = 0; i < progs.size(); i++) { std::string p = progs[i]; int id = i; ts.push_back(mvp::spawn_os([id, p] { body(id, p); }, "os")); }
@@ -119,6 +121,9 @@ static const PmcConfig CFG[] = {
     {"S0:ppp|ooo",    3, {3,6}, {0,0}, {0,0}, {0,0}, ""},
     {"Sw:sss|rrr",    3, {3,6}, {0,0}, {0,0}, {0,0}, ""},
     {"S0:Pp|Oo",      3, {3,6}, {0,0}, {0,0}, {0,0}, ""},
+    {"M0:ss|rr:tso",  3, {2,3}, {0,0}, {1,2}, {3,4}, "store-buffer mode (x86-TSO)"},
+    {"B0:P|p|OO:tso", 3, {2,2}, {0,0}, {1,2}, {3,3}, ""},
+    {"S0:ppp|ooo:tso",3, {2,3}, {0,0}, {1,2}, {3,4}, ""},
 };
 const PmcConfig* pmc_configs(int* n) { *n = sizeof CFG / sizeof CFG[0]; return CFG; }
 const char* pmc_property(void) { return "C07"; }
